@@ -33,6 +33,7 @@ TStep(e) ==
     [] e.a = "Add"        -> EvAdd(e.t)
     [] e.a = "Resume"     -> EvResume(e.t)
     [] e.a = "Queue"      -> EvQueue(e.s)
+    [] e.a = "Loaded"     -> EvLoaded(e.t, e.b)
     [] e.a = "Busy"       -> EvBusy(SetOf(e.S))
     [] e.a = "Delete"     -> EvDelete(e.t)
     [] e.a = "Removable"  -> EvRemovable(SetOf(e.S))
